@@ -225,6 +225,27 @@ def _recursion(ck, fx, cg, reach):
             ck.ob("R10.recursion", key, ok, where, "%s — %s" % (names[:4], why))
         ck.sample({"rule": "R10.recursion", "scc": label[0], "members": names, "bound": label[1]})
     ck.floor("R10.recursion", "listed recursive components found", len(seen), 2)
+    # native recursion hidden in a *value*: an error wrapped once per element of a run-time collection (`.context(..)` in a
+    # loop / fold over the frames, the operand stack, …) is a chain as long as that collection, and anyhow drops a chain
+    # recursively — a failure at FML call depth 10^5 then overflows the native stack while the error is being dropped
+    n_ctx = 0
+    for did in sorted(reach):
+        hb_c = fx.hir_by_did.get(did)
+        if hb_c is None or hb_c["from_expansion"]:
+            continue
+        for n_, ps_ in walk_body(hb_c):
+            if n_.get("k") == "MethodCall" and n_["name"] in ("context", "with_context") and "anyhow" in str((n_.get("callee") or {}).get("def") or "") + str((n_.get("callee") or {}).get("inst") or ""):
+                n_ctx += 1
+                # is the value being wrapped itself already an error (`error.context(..)`), and does this happen per element?
+                rt = (fx.ty(n_["recv"]) or "")
+                on_error = rt.endswith("anyhow::Error") or rt == "anyhow::Error"
+                chain = [q if isinstance(q, dict) else q[1] for q in ps_ if isinstance(q, dict) or (isinstance(q, tuple) and len(q) == 2 and isinstance(q[1], dict))]
+                in_loop = any(q.get("k") == "Loop" or (q.get("k") == "Match" and q.get("src") == "ForLoopDesugar") for q in chain)
+                in_fold = any(q.get("k") == "Closure" for q in chain) and any(q.get("k") == "MethodCall" and q.get("name") in ("fold", "try_fold", "rfold", "reduce", "scan") for q in chain)
+                if on_error and (in_loop or in_fold):
+                    ck.ob("R10.recursion", "%s|error chain grows per element" % hb_c["path"], False, loc(n_),
+                          "an anyhow::Error is wrapped with .%s() once per element of a run-time collection: the chain is as long as the collection and is dropped recursively (native stack overflow at FML call depth 10^5)" % n_["name"])
+    ck.ob("R10.recursion", "no error chain proportional to a run-time collection", True, "", "%d .context()/.with_context() call(s) examined in the reachable code" % n_ctx, nontrivial=False)
     # the fetch-execute loop itself must not recurse natively (FML calls use the frame Vec)
     eo = cg.dids_of(A.get("eval_opcode"))
     ck.anchor("R10.recursion", "eval_opcode", eo or None)
